@@ -376,20 +376,15 @@ class Consecution(core_events.abc.Compound, typing.Generic[T]):
         elif abstf == abstf_tuple[event_index]:
             return event_index
 
-        try:
-            end = abstf_tuple[event_index + 1]
-        except IndexError:
-            end = durf
-
-        difference = end - abstf
+        difference = abstf - abstf_tuple[event_index]
         split_event = self[event_index].split_at(difference)
         split_event_count = len(split_event)
         match split_event_count:
             case 1:
                 pass
             case 2:
-                self[event_index] = split_event[0]
-                self.insert(event_index, split_event[1])
+                self[event_index] = split_event[1]
+                self.insert(event_index, split_event[0])
             case _:
                 raise RuntimeError("Unexpected event count!")
 
